@@ -3,6 +3,8 @@
   Statements over the model at the reference cursor; every input, every option set, no size bound.
 -/
 import Rl2tp.Proofs.Total
+import Rl2tp.Proofs.GenGuards
+import Rl2tp.Proofs.GenSizes
 namespace Rl2tp.C01
 
 /-- `Message::try_read_validate`: for every byte string and every option set the result is a value
@@ -63,5 +65,29 @@ example : (decode Opts.strict : M Bytes _ _) [0x13, 0x20, 0, 12, 0, 1, 0, 2, 0, 
 example : (decode Opts.strict : M Bytes _ Msg) [0x13, 0x20, 0, 4, 0, 1, 0, 2, 0, 3, 0, 4]
     = .err [.incompleteControlMessageHeader] [] := by decide
 example : (greedy : M Bytes DErr _) [0, 3, 0, 0, 0, 7] = .ok [.error (.invalidAVPLength 3)] [] := by decide
+
+/-! ### guards and sizes as the source has them now (re-read by bin/gentables on every run) -/
+
+/-- for each kind whose first guard (`reader.len() < Self::LENGTH`) stands in front of unchecked reads in the *source as it
+    is now*, the least payload length that guard lets through is the model's: below it the model's decoder of the kind of
+    that name refuses the payload as incomplete, at it it does not — so the unchecked reads behind each guard are the
+    ones the model's theorem is about -/
+theorem source_unchecked_guards :
+    ∀ r ∈ Gen.typeConstants, r.2.2.2.1 = true →
+      (∀ n ∈ List.range r.2.2.1, GenGuards.refusedAsIncomplete (GenGuards.numberOf r.2.1) n = true) ∧
+      GenGuards.refusedAsIncomplete (GenGuards.numberOf r.2.1) r.2.2.1 = false :=
+  GenGuards.unchecked_guards_is_model
+
+/-- the source's AVP header size and fixed control header size are the model's: fewer octets than `Header::LENGTH` give
+    no record and exactly that many give one; a Length field below `FIXED_LENGTH` is refused and one equal to it accepted -/
+theorem source_header_sizes :
+    ((∀ n ∈ List.range (GenSizes.cc "HEADER_LENGTH"), (greedy : M Bytes DErr (List Res)) (GenSizes.zeros n) = .ok [] (GenSizes.zeros n)) ∧
+     (match (greedy : M Bytes DErr (List Res)) (GenSizes.zeros (GenSizes.cc "HEADER_LENGTH")) with | .ok [_] _ => true | _ => false) = true) ∧
+    ((∀ l ∈ List.range (GenSizes.cc "CONTROL_FIXED_LENGTH"),
+      (decode Opts.strict : M Bytes (List DErr) Msg) ([0x13, 0x20, 0, UInt8.ofNat l] ++ GenSizes.zeros 8)
+        = .err [.incompleteControlMessageHeader] []) ∧
+     (match (decode Opts.strict : M Bytes (List DErr) Msg) ([0x13, 0x20, 0, UInt8.ofNat (GenSizes.cc "CONTROL_FIXED_LENGTH")] ++ GenSizes.zeros 8) with
+      | .ok (.control c) [] => c.avps.isEmpty | _ => false) = true) :=
+  ⟨GenSizes.header_length_is_model, GenSizes.control_fixed_length_is_model⟩
 
 end Rl2tp.C01
